@@ -1,6 +1,7 @@
 // Names template instantiations only; contains no logic. It makes clang's AST contain the instantiated
 // bodies of dsplib's header-only templates (the same code every user TU instantiates).
 #include <dsplib.h>
+#include "ma-filter.h"
 
 namespace dsplib {
 template class base_array<real_t>;
@@ -65,6 +66,8 @@ void stateful() {
     RlsFilter<real_t> r1(4); RlsFilter<cmplx_t> r2(4);
     (void)l1.process(arr_real(4), arr_real(4)); (void)l2.process(arr_cmplx(4), arr_cmplx(4));
     (void)r1.process(arr_real(4), arr_real(4)); (void)r2.process(arr_cmplx(4), arr_cmplx(4));
+    FirFilter<real_t> f1(arr_real(4)); (void)f1.process(arr_real(4)); FirFilter<cmplx_t> f2(arr_cmplx(4)); (void)f2.process(arr_cmplx(4));
+    MAFilter<real_t> m1(4); (void)m1.process(arr_real(4)); (void)m1.process(real_t(1)); MAFilter<cmplx_t> m2(4); (void)m2.process(arr_cmplx(4));
     Delay<real_t> d1(3); (void)d1.process(arr_real(4)); Delay<cmplx_t> d2(3); (void)d2.process(arr_cmplx(4));
 }
 }   // namespace verif_driver
